@@ -2,8 +2,11 @@
 // (integers, strings, booleans, characters; floats belong to C13).
 #include <string_theory/string>
 #include <string_theory/format>
+#include <string_theory/stdio>
+#include <string_theory/iostream>
 
 #include <filesystem>
+#include <sstream>
 
 #include "common/verif.h"
 #include "ref/ref_format.h"
@@ -14,13 +17,24 @@ using verif::Case;
 
 const verif::Info verif_info = {
     "C11", 400,
-    "enumerated: alignment {none,<,>} x pad {none,_*,0 flag,_0} x width {0,natural-1,natural,natural+1,natural+5,40} x '#' x '+' x class {none,d,x,X,o,b} x part order "
+    "enumerated: padding runs of B-1, B, B+1 characters for B in {32,64,256,1024,4096,8192,16384} x 8 layouts (numbers default/left/zero flag with sign and prefix/64 binary digits, text left/right, bool, "
+    "user type with right default and precision) x 3 pad modes through every entry point; alignment {none,<,>} x pad {none,_*,0 flag,_0} x width {0,natural-1,natural,natural+1,natural+5,40} x '#' x '+' x class {none,d,x,X,o,b} x part order "
     "{canonical,reversed} over 0, +-1, +-9, +-10, +-255, radix boundaries, min, max (+-1) of all 15 integer and character types, one typed ST::format call each; "
     "generated: 1..5 fields in random part order (never two digit-bearing parts glued, no contradictory flags), sequential and &N selection mixed, literals with {{ }} and lone }, "
     "non-ASCII scalars, 1..5 arguments of 32 types (all integer widths, char types, bool, narrow/wide C strings, ST::string, std strings and views), widths and precisions in "
     "every relation to the natural length (<= 400), {c} on integer values inside and outside 0..10FFFF (incl. 64-bit values that do not fit 32 bits; not on char8_t, which is a UTF-8 code unit copied verbatim); 1 case in 16 deliberately produces ill-formed UTF-8 (checked through "
     "ST::format(assume_valid,..)). Oracle: ref/ref_format.h interpreter (std::to_chars digits). Non-trivial: a field in which >= 2 of {sign, prefix, padding, precision cut} "
-    "interact, or >= 2 fields of which one is selected by &N; distinct by decoded-case hash.",
+    "interact, or >= 2 fields of which one is selected by &N; distinct by decoded-case hash. "
+    "Extended calls (first byte E0..FC, ~11% of the generated cases; FD = one enumerated pad-run point): 0..12 arguments and 0..16 fields with &N up to 12 and one argument referenced by several "
+    "fields with different specifications; fixed typed signatures of 6, 7 and 12 arguments passed as lvalues and as rvalues; text with embedded U+0000 in all 16 text forms and ST::string (C-string "
+    "forms end at it, every pointer+length form keeps it; views are exact-size unterminated heap blocks); ST::char_buffer / wchar_buffer / utf16_buffer / utf32_buffer / ST::null; "
+    "std::filesystem::path (repeated separators kept); user-defined format_type overloads that call ST::format_string with the default alignment omitted, left, right (char and char8_t overloads), that "
+    "chain two library formatters, that write a literal through format_writer::append(const char(&)[N]), and that are written with the deprecated ST_DECL_FORMAT_TYPE / ST_FORMAT_TYPE / "
+    "ST_FORMAT_FORWARD / ST_INVOKE_FORMATTER macros; {c} on char8_t values below 0x80; precision on numbers and on {c}; '#', '+', digit-class and float-class letters on text, booleans and {c} "
+    "(no effect); padding runs of 31..16385 characters (at and one off 32/64/256/1024/4096/8192/16384), literal runs of 255..20000 bytes with brace escapes, text arguments of 255..4097 characters, "
+    "precision cuts at 255..4096; calls without any field and without arguments. Each extended call goes through ST::format(fmt,..), ST::format(assume_valid|check_validity|substitute_invalid, fmt,..), "
+    "operator\"\"_stfmt(fmt)(..) (also six real literals), ST::format_latin_1 (all-ASCII renderings only), the byte sinks ST::printf(FILE*) and ST::writef(std::ostream&), and - single argument or fixed signature - through the call with the real C++ types. "
+    "Oracle for these: ref/ref_format_ext.h on top of ref_format.h.",
     true, "exploration"};
 
 // ----- user-defined types formatted through the documented extension point (a format_type overload found by ADL) ---------
@@ -234,12 +248,30 @@ template <class F> auto xcall_n(const std::vector<XArg> &a, F &&f) -> decltype(f
 }
 
 // The public ways to obtain an ST::string from a format call
-enum { E_FORMAT, E_ASSUME, E_CHECK, E_SUBST, E_UDL, E_LATIN1, E_COUNT };
+enum { E_FORMAT, E_ASSUME, E_CHECK, E_SUBST, E_UDL, E_LATIN1, E_PRINTF, E_WRITEF, E_COUNT };
 const char *entry_name(int e) {
     static const char *n[] = {"ST::format(fmt, ..)", "ST::format(assume_valid, fmt, ..)", "ST::format(check_validity, fmt, ..)", "ST::format(substitute_invalid, fmt, ..)",
-                              "operator\"\"_stfmt(fmt)(..)", "ST::format_latin_1(fmt, ..)"};
+                              "operator\"\"_stfmt(fmt)(..)", "ST::format_latin_1(fmt, ..)", "ST::printf(FILE*, fmt, ..)", "ST::writef(std::ostream&, fmt, ..)"};
     return n[e];
 }
+// the byte sinks: what a FILE* / a narrow std::ostream received
+template <class F> Outcome observe_sink(F &&f) {
+    Outcome o;
+    try { f(o.bytes); }
+    catch (const ST::bad_format &e) { o.kind = 1; o.what = e.what(); }
+    catch (const ST::unicode_error &e) { o.kind = 4; o.what = e.what(); }
+    catch (const std::out_of_range &e) { o.kind = 2; o.what = e.what(); }
+    catch (const std::invalid_argument &e) { o.kind = 3; o.what = e.what(); }
+    catch (const verif::assertion_failure &a) { o.kind = 5; o.what = a.message; }
+    catch (...) { o.kind = 6; o.what = verif::describe_current_exception(); }
+    return o;
+}
+struct MemFile {
+    char *buf = nullptr; size_t len = 0; FILE *f;
+    MemFile() { f = open_memstream(&buf, &len); }
+    ~MemFile() { if (f) fclose(f); free(buf); }
+    void finish(std::string &out) { fclose(f); f = nullptr; out.assign(buf, len); }
+};
 template <class... A> Outcome call_entry(int e, const char *fs, size_t n, A &&...a) {
     switch (e) {
     case E_FORMAT: return observe([&] { return ST::format(fs, a...); });
@@ -247,7 +279,9 @@ template <class... A> Outcome call_entry(int e, const char *fs, size_t n, A &&..
     case E_CHECK: return observe([&] { return ST::format(ST::check_validity, fs, a...); });
     case E_SUBST: return observe([&] { return ST::format(ST::substitute_invalid, fs, a...); });
     case E_UDL: return observe([&] { return ST::literals::operator""_stfmt(fs, n)(a...); });
-    default: return observe([&] { return ST::format_latin_1(fs, a...); });
+    case E_LATIN1: return observe([&] { return ST::format_latin_1(fs, a...); });
+    case E_PRINTF: return observe_sink([&](std::string &out) { MemFile m; if (!m.f) throw std::runtime_error("open_memstream failed"); ST::printf(m.f, fs, a...); m.finish(out); });
+    default: return observe_sink([&](std::string &out) { std::ostringstream os; ST::writef(os, fs, a...); if (!os.good()) throw std::runtime_error("ostringstream not good()"); out = os.str(); });
     }
 }
 template <class... A> Outcome call_entry_typed(int e, const char *fs, size_t n, A &&...a) {      // typed calls: two entry points (compile time)
@@ -260,7 +294,7 @@ std::string judge(int e, const Outcome &o, const std::string &want, bool strict,
     std::string who = std::string(entry_name(e)) + " [" + how + "]";
     bool must_equal = true;
     switch (e) {
-    case E_ASSUME: case E_LATIN1:                // never validates (format_latin_1 is only called for an all-ASCII rendering)
+    case E_ASSUME: case E_LATIN1: case E_PRINTF: case E_WRITEF:     // never validate (format_latin_1 is only called for an all-ASCII rendering)
         if (o.kind != 0) return who + " ended with " + okind(o.kind) + " (" + o.what + "), specified rendering is " + verif::quoted(want, 200);
         break;
     case E_SUBST:                                // never throws; the repaired text of an ill-formed rendering belongs to C02
